@@ -12,6 +12,7 @@ import (
 	"net/http"
 	"reflect"
 	"strconv"
+	"strings"
 	"testing"
 
 	"pgregory.net/rapid"
@@ -22,7 +23,7 @@ import (
 	"github.com/flamego/flamego/verifharness/internal/rt"
 )
 
-const rule = "case = one handler of a supported return shape (string, []byte, error (from func() and from func(Context)), *string, *[]byte, named string, named []byte, any holding a string / a byte slice / an error, (named int, string), (int,string), (int,[]byte), (int,error), (string,error), ([]byte,error); func() (int,string) both as the auto-wrapped fast path and as a named func type invoked reflectively) optionally flushing, sending a status line, writing itself, cancelling its request or calling Next() first and then returning generated values (arbitrary bytes, occasionally 0.5..70 KB of them, empty, nil, nil/non-nil errors of 6 concrete types incl. one with an empty message and two whose dynamic value is the zero value of its type, status 100..999), placed as middleware, group handler, route handler or action, followed by a marker handler; optionally a custom ReturnHandler mapped at application or request scope. " +
+const rule = "case = one handler of a supported return shape (string, []byte, error (from func() and from func(Context)), *string, *[]byte, named string, named []byte, any holding a string / a byte slice / an error, (named int, string), (int,string), (int,[]byte), (int,error), (string,error), ([]byte,error); func() (int,string) both as the auto-wrapped fast path and as a named func type invoked reflectively) optionally flushing, sending a status line, writing itself, cancelling its request, calling Next() or registering a before-function that serves a nested request first and then returning generated values (arbitrary bytes, occasionally 0.5..70 KB of them, empty, nil, nil/non-nil errors of 6 concrete types incl. one with an empty message and two whose dynamic value is the zero value of its type, status 100..999), placed as middleware, group handler, route handler or action, followed by a marker handler; optionally a custom ReturnHandler mapped at application or request scope. " +
 	"Oracle: an own table (status, body, chain continues?) checked on a spy writer (with or without a WriteString method; after the handler's own output, if any: the returned values are rendered all the same), 'marker ran <=> nothing was written', fast path == reflective path, and a custom ReturnHandler receives exactly the returned values while the table is not applied. " +
 	"non-trivial = empty / nil / zero results, a nil error in a pair, a pointer or interface result, a non-200 status, a position other than the route handler, or a custom ReturnHandler; distinct by case text"
 
@@ -242,6 +243,7 @@ func checkCase(c Case) (out evid.Outcome) {
 	}
 	var rw flamego.ResponseWriter
 	var cur flamego.Context
+	var app *flamego.Flame
 	reqCtx, cancelReq := gocontext.WithCancel(gocontext.Background())
 	defer cancelReq()
 	h, returned := c.handler(func() {
@@ -257,6 +259,19 @@ func checkCase(c Case) (out evid.Outcome) {
 			// client that went away); what the handler returns is rendered all the
 			// same - return values are rendered first, then the chain stops
 			cancelReq()
+		case "nested":
+			// a function registered to run before the first write serves another
+			// request on the same application (whose handler returns a string
+			// as long as this one's): what this handler returns is still the body
+			rw.Before(func(flamego.ResponseWriter) {
+				hdr := http.Header{}
+				hdr.Set("X-Plain", "1")
+				inner := rt.NewSpy()
+				app.ServeHTTP(inner, rt.NewRequest("GET", "/nested", hdr))
+				if string(inner.Body) != nestedBody(c) {
+					panic(fmt.Sprintf("harness: nested request answered %q", inner.Body))
+				}
+			})
 		case "next":
 			// the handler has the rest of the chain run first (which writes
 			// nothing) and returns its value afterwards
@@ -264,7 +279,13 @@ func checkCase(c Case) (out evid.Outcome) {
 		}
 	})
 	f := flamego.NewWithLogger(io.Discard)
-	f.Use(func(ctx flamego.Context) { rw = ctx.ResponseWriter(); cur = ctx })
+	app = f
+	f.Use(func(ctx flamego.Context) {
+		if ctx.Request().URL.Path != "/nested" {
+			rw, cur = ctx.ResponseWriter(), ctx
+		}
+	})
+	f.Get("/nested", func() string { return nestedBody(c) })
 	markerRan := false
 	marker := func() { markerRan = true }
 	var customGot []reflect.Value
@@ -454,13 +475,25 @@ func checkCase(c Case) (out evid.Outcome) {
 	if c.Own != "" {
 		out.Classes = append(out.Classes, "own:"+c.Own)
 		nt = true
-		if c.Own != "cancel" && c.Own != "next" {
+		if c.Own != "cancel" && c.Own != "next" && c.Own != "nested" {
 			out.Classes = append(out.Classes, "handler-wrote-before-returning")
 		}
 	}
 	out.Classes = append(out.Classes, "shape:"+c.Shape)
 	out.NonTrivial = nt
 	return out
+}
+
+// nestedBody is what the nested request of own-action "nested" is answered with.
+func nestedBody(c Case) string {
+	n := len(c.str())
+	if n == 0 {
+		n = 1
+	}
+	if n > 4096 {
+		n = 4096
+	}
+	return strings.Repeat("~", n)
 }
 
 func isNil(v interface{}) bool {
@@ -490,7 +523,7 @@ func genCase(t *rapid.T) Case {
 		Custom: []string{"", "", "", "app", "request"}[rapid.IntRange(0, 4).Draw(t, "custom")],
 		Method: []string{"GET", "GET", "GET", "HEAD"}[rapid.IntRange(0, 3).Draw(t, "method")],
 		Pre:    []string{"", "", "emptystr", "nilerr", "emptybytes"}[rapid.IntRange(0, 4).Draw(t, "pre")],
-		Own:    []string{"", "", "", "flush", "wh", "w", "cancel", "next"}[rapid.IntRange(0, 7).Draw(t, "own")],
+		Own:    []string{"", "", "", "flush", "wh", "w", "cancel", "next", "nested"}[rapid.IntRange(0, 8).Draw(t, "own")],
 		Env:    []string{"", "", "production", "test"}[rapid.IntRange(0, 3).Draw(t, "env")],
 	}
 	if rapid.IntRange(0, 9).Draw(t, "anycode") == 0 {
@@ -508,6 +541,14 @@ func genCase(t *rapid.T) Case {
 	c.S = strconv.QuoteToASCII(gen.Big(t, s))
 	c.Nil = rapid.IntRange(0, 3).Draw(t, "nil") == 0
 	c.Err = []string{"nil", "nil", "new", "custom", "wrapped", "emptymsg", "zerostruct", "zerostring"}[rapid.IntRange(0, 7).Draw(t, "err")]
+	if c.Own == "nested" {
+		// (the nested request must not come by the handler under test or a custom
+		// ReturnHandler itself)
+		c.Custom = ""
+		if c.Pos == "use" || c.Pos == "action" {
+			c.Pos = "route"
+		}
+	}
 	return c
 }
 
